@@ -13,7 +13,8 @@ open LinVerif.VersionSet LinVerif.TableCache
 /-- frame facts along a run from a reachable state of the proved variant (the step of a commit
 that stores the file counter back needs `Safe`: the number it read is still the counter) -/
 theorem frame_run {cfg : Cfg} {acts : List Act} {s s' : St} (hr : cfg.recheck = true) (hcl : cfg.cloneLocked = true)
-    (hal : cfg.allocLocked = true) (hfe : cfg.findErrReleases = false) (hs : Safe s) (h : run cfg s acts = some s') :
+    (hal : cfg.allocLocked = true) (hfe : cfg.findErrReleases = false) (hpf : cfg.pendFirst = true)
+    (hcc : cfg.closeCAS = true) (hga : cfg.getReaderAtomic = true) (hs : Safe s) (h : run cfg s acts = some s') :
     Frame s s' := by
   induction acts generalizing s with
   | nil => simp only [run] at h; cases h; exact Frame.refl _
@@ -21,8 +22,8 @@ theorem frame_run {cfg : Cfg} {acts : List Act} {s s' : St} (hr : cfg.recheck = 
     simp only [run] at h
     split at h
     next s1 hs1 =>
-      exact Frame.trans (frame_step (fun k hk hp => (hs.jobs k hk).nfread hp) hs1)
-        (ih (safe_step hr hcl hal hfe hs hs1) h)
+      exact Frame.trans (frame_step hpf (fun k hk hp => (hs.jobs k hk).nfread hp) hs1)
+        (ih (safe_step hr hcl hal hfe hpf hcc hga hs hs1) h)
     next => cases h
 
 /-- the content of version data `v` for key `k` given the table contents -/
